@@ -68,27 +68,8 @@ theorem desc_raceFree_sound (l : Loop) (hl : l.raceFree = true) (fx : String →
     (hconf : ConformsTo l fx prog) : RaceFree prog :=
   desc_raceFree l hl fx prog hconf
 
-/-- the first `prange` loop of `push_pagerank` as generated on the pinned tree (each vertex accumulates into its own
-    `residuals[vertex]`) -/
-def pushInitLoop : Loop :=
-  { name := "linalg/push.pyx:push_pagerank#0", var := "vertex", schedule := "static-default",
-    accs := [.load "rev_indptr" (.own 0), .load "rev_indptr" (.own 1), .call "range" true,
-             .load "rev_indices" (.indirect "j"), .load "degrees" (.indirect "neighbor"),
-             .load "residuals" (.own 0), .store "residuals" (.own 0), .load "seeds" (.own 0),
-             .priv "j", .priv "j1", .priv "j2", .priv "neighbor"] }
-
 /-- non-vacuity of `desc_raceFree_sound`: the descriptor passes, and a two-iteration instance conforms -/
 example : pushInitLoop.raceFree = true := by decide
-
-/-- D-iteration's sweep as generated on the pinned tree -/
-def diterationLoop : Loop :=
-  { name := "linalg/diteration.pyx:diffusion#0", var := "i", schedule := "guided",
-    accs := [.load "fluid" (.own 0), .load "scores" (.own 0), .store "scores" (.own 0), .store "fluid" (.own 0),
-             .load "indptr" (.own 0), .load "indptr" (.own 1), .call "range" true,
-             .load "indices" (.indirect "jj"), .load "data" (.indirect "jj"),
-             .load "fluid" (.indirect "j"), .store "fluid" (.indirect "j"),
-             .priv "j", .priv "j1", .priv "j2", .priv "jj", .priv "removed", .priv "sent", .priv "tmp",
-             .reduction "residu" "-" false] }
 
 /-- **Schedule independence of a checked `prange` loop.** -/
 theorem prange_schedule_independent (l : Loop) (hl : l.raceFree = true) (fx : String → Nat)
@@ -96,6 +77,50 @@ theorem prange_schedule_independent (l : Loop) (hl : l.raceFree = true) (fx : St
     (m0 : Mem) (s : List Nat) (h : Complete prog n (run prog (Cfg.init m0) s)) (loc : Loc) :
     (run prog (Cfg.init m0) s).mem loc = (run prog (Cfg.init m0) (seqSched prog n)).mem loc :=
   raceFree_eq_sequential prog (desc_raceFree l hl fx prog hconf) n hn m0 s h loc
+
+
+/-- **The first `prange` loop of `push_pagerank` conforms to its descriptor**, for every reversed CSR structure
+    (any `rev_indptr`, `rev_indices`, well formed or not) and any arithmetic. -/
+theorem pushInit_conforms (n : Nat) (ip ix : List Nat) (acc scale : List ParFor.Val → ParFor.Val) :
+    ConformsTo pushInitLoop (fun _ => 0) (pushInitProg n ip ix acc scale) := by
+  intro v e he
+  unfold pushInitProg at he
+  split at he
+  · unfold pushInitIter at he
+    simp only [List.mem_append, List.mem_cons, List.not_mem_nil, or_false, List.mem_flatMap, List.mem_range] at he
+    rcases he with (((rfl | rfl) | ⟨k, _, hk⟩) | (rfl | rfl | rfl))
+    · exact ⟨.load "rev_indptr" (.own 0), by simp [pushInitLoop], by simp [Conforms]⟩
+    · exact ⟨.load "rev_indptr" (.own 1), by simp [pushInitLoop], by simp [Conforms]⟩
+    · rcases hk with rfl | rfl | rfl | rfl
+      · exact ⟨.load "rev_indices" (.indirect "j"), by simp [pushInitLoop], by simp [Conforms]⟩
+      · exact ⟨.load "degrees" (.indirect "neighbor"), by simp [pushInitLoop], by simp [Conforms]⟩
+      · exact ⟨.load "residuals" (.own 0), by simp [pushInitLoop], by simp [Conforms]⟩
+      · exact ⟨.store "residuals" (.own 0), by simp [pushInitLoop], by simp [Conforms]⟩
+    · exact ⟨.load "seeds" (.own 0), by simp [pushInitLoop], by simp [Conforms]⟩
+    · exact ⟨.load "residuals" (.own 0), by simp [pushInitLoop], by simp [Conforms]⟩
+    · exact ⟨.store "residuals" (.own 0), by simp [pushInitLoop], by simp [Conforms]⟩
+  · simp at he
+
+/-- **…hence it computes the same `residuals` under every schedule**: any complete interleaving of the `n` iterations
+    ends in the memory of the sequential loop. -/
+theorem pushInit_deterministic (n : Nat) (ip ix : List Nat) (acc scale : List ParFor.Val → ParFor.Val) (m0 : Mem)
+    (s : List Nat)
+    (h : Complete (pushInitProg n ip ix acc scale) n (run (pushInitProg n ip ix acc scale) (Cfg.init m0) s))
+    (loc : Loc) :
+    (run (pushInitProg n ip ix acc scale) (Cfg.init m0) s).mem loc =
+      (run (pushInitProg n ip ix acc scale) (Cfg.init m0) (seqSched (pushInitProg n ip ix acc scale) n)).mem loc := by
+  apply prange_schedule_independent pushInitLoop (by decide) (fun _ => 0) _ (pushInit_conforms n ip ix acc scale) n _ m0 s h
+  intro t ht
+  have : ¬ t < n := by omega
+  simp [pushInitProg, this]
+
+/-- non-vacuity: the reversed CSR of the path 0 → 1 → 2 (node 1 has in-neighbour 0, node 2 has in-neighbour 1);
+    an interleaved schedule is complete and gives the same `residuals[2]` as the sequential one -/
+example :
+    let prog := pushInitProg 3 [0, 0, 1, 2] [0, 1] (addF 1) (addF 10)
+    (run prog (Cfg.init fun _ => 0) [2, 1, 0, 2, 1, 0, 2, 1, 0, 2, 1, 0, 2, 1, 0, 2, 1, 2, 1, 2, 1, 2, 1]).mem ("residuals", 2) = 11 ∧
+    (run prog (Cfg.init fun _ => 0) (seqSched prog 3)).mem ("residuals", 2) = 11 ∧
+    (run prog (Cfg.init fun _ => 0) (seqSched prog 3)).mem ("residuals", 0) = 10 := by decide
 
 /-- **The pinned D-iteration sweep is not deterministic**: its descriptor fails the check, and the two-iteration loop
     in which both iterations execute `fluid[0] += 1` (a load then a store, both instances of the descriptor's
@@ -167,14 +192,6 @@ theorem indirect_update_not_deterministic (l : Loop) (arr e₁ e₂ : String)
     simp [lostUpdateOn, this]
   · rw [(lostUpdateOn_outcomes arr).1, (lostUpdateOn_outcomes arr).2]
     decide
-
-/-- the second `prange` loop of `push_pagerank` as generated on the pinned tree -/
-def pushNeighborLoop : Loop :=
-  { name := "linalg/push.pyx:push_pagerank#1", var := "j", schedule := "static-default",
-    accs := [.load "indices" (.own 0), .load "residuals" (.indirect "neighbor"), .load "residuals" (.fixed "vertex"),
-             .load "degrees" (.fixed "vertex"), .load "residuals" (.indirect "neighbor"),
-             .store "residuals" (.indirect "neighbor"), .load "residuals" (.indirect "neighbor"),
-             .method "worklist" "push" true, .priv "neighbor", .priv "tmp"] }
 
 /-- non-vacuity: both pinned racy loops meet the hypotheses, and fail the check -/
 example : pushNeighborLoop.raceFree = false ∧ diterationLoop.raceFree = false ∧
